@@ -9,7 +9,7 @@ conditions `table[key][k]` is defined (`t*_g2`).
 set_option linter.unusedSectionVars false
 set_option linter.unusedVariables false
 
-namespace Ptn.Ham
+namespace Ptn.Ham.Gauge
 open Ptn.Og List
 
 theorem aDagL_spec (L : Int) : famKeys (MolNodes.init L).aDagL = specKeys ((pyRange (0) (L - 2)).map fun x => ([x], pyRange (x + 1) (L - 1), (1 : Int))) := by
@@ -170,4 +170,4 @@ theorem t9_g2 (L x y k : Int) (h0 : L / 2 + 1 ≤ x) (h1 : x < L) (h2 : L / 2 + 
   pair_get2 (MolNodes.init L).aDagAAnnR _ (fun x => pyRange (L / 2 + 1) (L)) (fun x y => pyRange (L / 2 + 1) (min x y + 1))
     (fun _ _ => (0 : Int)) (aDagAAnnR_spec L) x y k (mem_pyRange.2 ⟨h0, h1⟩) (mem_pyRange.2 ⟨h2, h3⟩) (mem_pyRange.2 ⟨h4, h5⟩)
 
-end Ptn.Ham
+end Ptn.Ham.Gauge
